@@ -1,0 +1,53 @@
+//go:build verif
+
+package actionlint
+
+import (
+	"fmt"
+	"sync/atomic"
+)
+
+// VerifEvent is one schedule point reached by the process pool. It only exists in builds with the
+// `verif` build tag and is used by the verification harness to record and delay executions.
+type VerifEvent struct {
+	// Kind is the name of the schedule point ("add", "go", "acq", "start", "exit", "rel", "done", "rwait", "pwait", ...).
+	Kind string
+	// Group identifies the errgroup (one per rule instance) or another owner the point belongs to.
+	Group string
+	// Cmd is the executable of the command line execution, if any.
+	Cmd string
+	// Stdin is the input passed to the command line execution, if any.
+	Stdin string
+	// Err is the error observed at the point, if any.
+	Err error
+}
+
+var verifHook atomic.Value // of func(VerifEvent)
+
+// SetVerifHook installs a callback called at every schedule point. Passing nil removes it.
+func SetVerifHook(f func(VerifEvent)) {
+	if f == nil {
+		f = func(VerifEvent) {}
+	}
+	verifHook.Store(f)
+}
+
+func verifPoint(kind string, group interface{}, exec *cmdExecution, err error) {
+	f, _ := verifHook.Load().(func(VerifEvent))
+	if f == nil {
+		return
+	}
+	ev := VerifEvent{Kind: kind, Err: err}
+	switch g := group.(type) {
+	case nil:
+	case string:
+		ev.Group = g
+	default:
+		ev.Group = fmt.Sprintf("%p", g)
+	}
+	if exec != nil {
+		ev.Cmd = exec.cmd
+		ev.Stdin = exec.stdin
+	}
+	f(ev)
+}
